@@ -40,6 +40,8 @@ def run(ctx, chk):
     from . import c16
     chk.rule("O7", "teardown joins every worker and shuts the connection down, releasing the descriptors they hold (C16/H5)")
     c16.run_on(fb, Renamed(chk, {"H5": "O7"}))
+    from . import xlist
+    xlist.apply("C09", fb, chk)
     n = lambda r: len([i for i in chk.instances if i[0] == r])
     chk.floor("O2", n("O2"), 6)
     chk.floor("O4", n("O4"), 8)
@@ -101,6 +103,12 @@ def run_on(fb, chk, tag=""):
             ok = "iter(" in it and any(s == call or (s[0] == "call" and s[1] == "recv_with_fds") for s in subterms(n))
         chk.check(ok, "O1", tag + "recv:count", "exactly the returned number of descriptors is wrapped (take(n))",
                   "the number of descriptors wrapped is not the count returned by the receive", f.loc())
+        # ... in the order they were received: the i-th file is the i-th descriptor of the message (region i <-> file i)
+        reorder = sorted({c_["name"] for _b, _t, c_ in sites(f, name={"rev", "skip", "step_by", "sort", "sort_unstable", "reverse", "swap",
+                                                                      "rotate_left", "rotate_right", "sort_by_key", "sort_by"})})
+        chk.check(not reorder, "O1", tag + "recv:order", "descriptors are wrapped in the order received",
+                  "%s wraps the received descriptors through %s: the files reach the handler in another order / not all of them "
+                  "(descriptor i no longer belongs to region i)" % (f.short, reorder), f.loc())
         # no early return between the receive and the wrapping
         cfg = m.cfg
         coll = [b for b, _t, _c in sites(f, name="collect")]
